@@ -180,8 +180,12 @@ def encode_settings(settings: dict[int, int]) -> bytes:
 
 def parse_max_push_id(data: bytes) -> int:
     buf = Buffer(data=data)
-    max_push_id = buf.pull_uint_var()
-    assert buf.eof()
+    try:
+        max_push_id = buf.pull_uint_var()
+    except BufferReadError:
+        raise FrameError("Malformed MAX_PUSH_ID frame")
+    if not buf.eof():
+        raise FrameError("Malformed MAX_PUSH_ID frame")
     return max_push_id
 
 
@@ -189,8 +193,11 @@ def parse_settings(data: bytes) -> dict[int, int]:
     buf = Buffer(data=data)
     settings: dict[int, int] = {}
     while not buf.eof():
-        setting = buf.pull_uint_var()
-        value = buf.pull_uint_var()
+        try:
+            setting = buf.pull_uint_var()
+            value = buf.pull_uint_var()
+        except BufferReadError:
+            raise FrameError("Malformed SETTINGS frame")
         if setting in RESERVED_SETTINGS:
             raise SettingsError("Setting identifier 0x%x is reserved" % setting)
         if setting in settings:
@@ -821,7 +828,10 @@ class H3Connection:
                 headers = self._decode_headers(stream.stream_id, None)
             else:
                 frame_buf = Buffer(data=frame_data)
-                push_id = frame_buf.pull_uint_var()
+                try:
+                    push_id = frame_buf.pull_uint_var()
+                except BufferReadError:
+                    raise FrameError("Malformed PUSH_PROMISE frame")
                 stream.blocked_push_id = push_id
                 headers = self._decode_headers(
                     stream.stream_id, frame_data[frame_buf.tell() :]
